@@ -85,6 +85,9 @@ func (t *Task) Wrap(kind string) *Task {
 }
 
 func (t *Task) value() tasklane.Task {
+	if t.isNil {
+		return nil
+	}
 	if t.wrap != nil {
 		return t.wrap
 	}
